@@ -243,9 +243,24 @@ class OptimizerWrapper:
         if len(matches) == 1:
             return matches[0]
         elif len(matches) > 1:
-            for match in matches:
-                if _check_lr_names(match):
-                    return match
+            lr_matches = [match for match in matches if _check_lr_names(match)]
+            if lr_matches:
+                # Several learning rates can be the very same float object (lr_actor=x, lr_critic=x):
+                # prefer the one named after the networks this optimizer updates
+                net_tokens = [
+                    token
+                    for name in self.network_names
+                    for token in name.lower().split("_")
+                ]
+
+                def _score(match: str) -> int:
+                    return sum(
+                        any(token in net or net in token for net in net_tokens)
+                        for token in match.lower().split("_")
+                        if token not in ("lr", "learning", "rate")
+                    )
+
+                return max(lr_matches, key=_score)
             raise AttributeError(
                 "Multiple attributes matched with the same value as the learning rate. "
                 "Please have your attribute contain 'lr' or 'learning_rate' in its name."
